@@ -1,11 +1,12 @@
 #!/bin/sh
-# usage: tools/coqchk_one.sh <Cxx> -- self-validation / trusted-base audit, not a MANIFEST command.  coqchk of the .vo closure of one property's Props file and its Refine files (compiled files of /verif/coq as they are)
+# usage: tools/coqchk_one.sh <Cxx> -- (statement files named *_refuted.v hold large vm_compute witnesses and are re-checked separately: `coqchk -silent -o -Q . PV PV.Props.C08_refuted`, hours)
+# self-validation / trusted-base audit, not a MANIFEST command.  coqchk of the .vo closure of one property's Props file and its Refine files (compiled files of /verif/coq as they are)
 p=$1
 cd /verif/coq
 mods=$(/venv/bin/python -c "
 import sys; sys.path.insert(0,'/verif/tools')
 from props import PROPS
-print(' '.join('PV.' + t[:-3].replace('/', '.') for t in PROPS['$p']['targets'] if not t.startswith('Extract/')))")
+print(' '.join('PV.' + t[:-3].replace('/', '.') for t in PROPS['$p']['targets'] if not t.startswith('Extract/') and not t.endswith('_refuted.vo')))")
 t0=$(date +%s)
 timeout 3000 coqchk -silent -o -Q . PV $mods > /verif/coqchk_logs/$p.txt 2>&1; rc=$?
 echo "modules: $mods" >> /verif/coqchk_logs/$p.txt
